@@ -81,6 +81,12 @@ def main():
     dst = f"/verif/seeded/{pid}-{tag}{x}"
     if ok:
         os.makedirs(dst, exist_ok=True)
+        if os.path.exists(f"{dst}/meta.json"):  # keep what earlier runs recorded for other checks
+            try:
+                old = json.load(open(f"{dst}/meta.json")).get("detected_by", {})
+                out["detected_by"] = {**old, **out["detected_by"]}
+            except Exception:  # noqa
+                pass
         shutil.copy(diff, f"{dst}/patch.diff")
         shutil.copy(demo, f"{dst}/demo.py")
         json.dump(out, open(f"{dst}/meta.json", "w"), indent=1)
